@@ -10,6 +10,7 @@ CAP_UNIT = 8  # demand k -> k/8, vehicle capacity cap/8 (dyadic: float arithmeti
 
 
 class CVRP(Adapter):
+    reward_from_actions = True
     name = "cvrp"
     module = "CVRP"
     multistart = True
